@@ -241,7 +241,7 @@ def im_state(tpl, vals, fidx, emu):
 
 
 def im_bucket(tpl, resource):
-    return "%s|im|%s|%s" % (tpl.arch, tpl.mn, resource)
+    return "%s|im|%s%s|%s" % (tpl.arch, tpl.mn, (":" + tpl.form) if tpl.form else "", resource)
 
 
 def res_class(name):
@@ -402,7 +402,13 @@ def form_of(text):
     mn = parts[0]
     ops = parts[1] if len(parts) > 1 else ""
     ops = _FORM_NUM.sub("i", ops)
-    ops = _FORM_REG.sub("r", ops)
+    seen = {}
+
+    def reg(m):
+        # registers are named by order of first appearance, so that `EXTR a,b,b,i` (a rotate) and `EXTR a,b,c,i`
+        # or `ADD a,a,b` and `ADD a,b,c` are different forms
+        return seen.setdefault(m.group(0), "abcdefgh"[min(len(seen), 7)])
+    ops = _FORM_REG.sub(reg, ops)
     ops = re.sub(r"loc_key_\d+|loc_[0-9a-fA-F]+", "L", ops)
     return mn, mn + " " + "".join(ops.split())
 
@@ -595,6 +601,8 @@ class CcCtx(object):
         self.n = 0
         self.natives = {}
         self.compiled = {}
+        self.partition = {}     # (arch, opt, function) -> failure disappears without block cuts
+        self.passed = {}        # (arch, function) -> instruction forms executed by passing runs
 
     def compile(self, arch, opt, funcs):
         key = (arch, opt, tuple(t for t, _ in funcs))
@@ -612,30 +620,37 @@ class CcCtx(object):
         return self.natives[key]
 
 
-def cc_explain(ctx, case, out, status, resource, detail):
+def cc_explain(ctx, case, out, status, resource, detail, batch=None, k=0):
     """-> (bucket, detail text) for a failing run; value mismatches are localised by spectrum: instruction forms of
-    the failing trace that no passing run of the same function (4 optimisation levels x fixed inputs + the failing
-    input) executes are the suspects."""
+    the failing trace that no passing run of the same function (4 optimisation levels x fixed inputs) executes are
+    the suspects."""
     arch, opt = case["arch"], case["opt"]
     head = "%s %s %s(a=0x%x, b=0x%x, c=0x%x, arr=[%s])" % (arch, opt, case["tag"], case["args"][0], case["args"][1],
                                                           case["args"][2], ",".join("0x%x" % x for x in case["arr"]))
     src = case["src"].replace("{f}", "f")
     trace = out["trace"]
-    funcs = [(case["tag"], case["src"])]
+    # batch: the compilation unit the function came from (its other optimisation levels are then compiled once for
+    # the whole unit instead of once per failing function); replay has the single function only
+    funcs = batch if batch is not None else [(case["tag"], case["src"])]
     from vlib import ccorpus
     nat = ctx.native(funcs, ccorpus.TARGETS[arch]["be"])
-    # step 1: does the failure depend on how the code is cut into translated blocks (and on state left by earlier
-    # runs of the same jitter) rather than on instruction semantics?  Fresh jitter, blocks never cut by jit_maxline.
-    code = ctx.compile(arch, opt, funcs)[0]
-    exp = nat.call(0, case["args"], case["arr"])
-    if code is not None and exp is not None and not (status == "error" and not trace):
-        o2 = CcRunner(arch, code, maxline=100000).run(case["args"], case["arr"])
-        if cc_judge_run(arch, o2, exp)[0] == "pass":
-            bucket = "%s|cc|jitter:block-partition|%s" % (arch, resource.split(":")[0])
-            return bucket, ("%s: %s; %d instructions executed; the same bytes and inputs give the native result on a "
-                            "fresh jitter with jit_maxline=100000 (no block cut): the failure depends on block "
-                            "partitioning / state kept between runs, not on an instruction's semantics -- C: %s"
-                            % (head, detail, len(trace), src))
+    # step 1 (once per program): does the failure depend on how the code is cut into translated blocks (and on state
+    # left by earlier runs of the same jitter) rather than on instruction semantics?  Fresh jitter, blocks never cut
+    # by jit_maxline.
+    pkey = (arch, opt, case["tag"])
+    if pkey not in ctx.partition:
+        ctx.partition[pkey] = False
+        code = ctx.compile(arch, opt, funcs)[k]
+        exp = nat.call(k, case["args"], case["arr"])
+        if code is not None and exp is not None and not (status == "error" and not trace):
+            o2 = CcRunner(arch, code, maxline=100000).run(case["args"], case["arr"])
+            ctx.partition[pkey] = cc_judge_run(arch, o2, exp)[0] == "pass"
+    if ctx.partition[pkey]:
+        bucket = "%s|cc|jitter:block-partition|%s" % (arch, resource.split(":")[0])
+        return bucket, ("%s: %s; %d instructions executed; the same bytes give the native result on a fresh jitter "
+                        "with jit_maxline=100000 (no block cut): the failure depends on block partitioning / state "
+                        "kept between runs, not on an instruction's semantics -- C: %s"
+                        % (head, detail, len(trace), src))
     if status == "error":
         at = "lift"
         if trace and ("symbexec" in out["where"] or "expression" in out["where"] or "jitcore_python" in out["where"]):
@@ -647,24 +662,37 @@ def cc_explain(ctx, case, out, status, resource, detail):
     for _a, txt in trace:
         mn, f = form_of(txt)
         forms.setdefault(f, mn)
-    passed = set()
-    for o in OPTS:
-        code = ctx.compile(arch, o, funcs)[0]
-        if code is None:
-            continue
-        runner = CcRunner(arch, code)
-        for args, arr in CC_INPUTS + [(case["args"], case["arr"])]:
-            exp = nat.call(0, args, arr)
-            if exp is None:
+    fkey = (arch, case["tag"])
+    if fkey not in ctx.passed:
+        passed = ctx.passed[fkey] = collections.Counter()      # form -> number of passing runs executing it
+        for o in OPTS:
+            code = ctx.compile(arch, o, funcs)[k]
+            if code is None:
                 continue
-            o2 = runner.run(args, arr)
-            st2, _r, _d = cc_judge_run(arch, o2, exp)
-            if st2 == "pass":
-                for _a, txt in o2["trace"]:
-                    passed.add(form_of(txt)[1])
-            elif st2 in ("unsupported", "error"):
-                break
-    suspects = [(f, mn) for f, mn in forms.items() if f not in passed]
+            runner = CcRunner(arch, code)
+            for args, arr in CC_INPUTS:
+                exp = nat.call(k, args, arr)
+                if exp is None:
+                    continue
+                o2 = runner.run(args, arr)
+                st2, _r, _d = cc_judge_run(arch, o2, exp)
+                if st2 == "pass":
+                    passed["<runs>"] += 1
+                    for f in set(form_of(txt)[1] for _a, txt in o2["trace"]):
+                        passed[f] += 1
+                elif st2 in ("unsupported", "error"):
+                    break
+    passed = ctx.passed[fkey]
+    suspects = [(f, mn) for f, mn in forms.items() if not passed[f]]
+    note = "not executed by any passing run of this function"
+    if not suspects and passed["<runs>"]:
+        # every form also occurs in some passing run: rank by the number of passing runs that execute the form and
+        # keep the rarest ones (at most two mnemonics), marked with '~' in the bucket
+        low = min(passed[f] for f in forms)
+        rare = [(f, mn) for f, mn in forms.items() if passed[f] == low]
+        if low < passed["<runs>"] and len(set(mn for _f, mn in rare)) <= 2:
+            suspects = rare
+            note = "executed by the fewest passing runs of this function (%d of %d)" % (low, passed["<runs>"])
     mns = sorted(set(mn for _f, mn in suspects))
     if not mns:
         who = "func:%s" % ("generated" if re.match(r"gen\d", case["tag"]) else case["tag"])
@@ -672,9 +700,12 @@ def cc_explain(ctx, case, out, status, resource, detail):
         who = "+".join(mns)
     else:
         who = "+".join(mns[:3]) + "+.."
+    if mns and note.startswith("executed by the fewest"):
+        who = "~" + who
     bucket = "%s|cc|%s|%s" % (arch, who, resource)
-    det = "%s: %s; %d instructions executed; instruction forms not executed by any passing run of this function: %s -- C: %s" % (
-        head, detail, len(trace), ", ".join(f for f, _ in suspects[:12]) or "(none)", src)
+    allmn = "" if suspects else "; mnemonics executed: %s" % " ".join(sorted(set(forms.values())))
+    det = "%s: %s; %d instructions executed; instruction forms %s: %s%s -- C: %s" % (
+        head, detail, len(trace), note, ", ".join(f for f, _ in suspects[:12]) or "(none)", allmn, src)
     return bucket, det
 
 
@@ -829,7 +860,7 @@ class C19(Check):
                     continue
                 case = {"kind": "cc", "arch": arch, "opt": opt, "tag": ftag, "src": src, "args": list(args),
                         "arr": list(arr)}
-                bk, det = cc_explain(ctx, case, out, status, resource, detail)
+                bk, det = cc_explain(ctx, case, out, status, resource, detail, batch=funcs, k=k)
                 case["_bucket"] = bk
                 res.fail(bk, det, case)
                 if status == "error":
